@@ -140,6 +140,52 @@ fn execute(seq: &[usize], ctx: &WorkerCtx) -> ExecResult {
     })
 }
 
+/// A live process that is more than a mailbox (1000 entries) behind: nothing may be dropped.
+fn backlog_exec(n: usize, ctx: &WorkerCtx) -> ExecResult {
+    run_rt(async move {
+        let mut res = ExecResult::default();
+        let mut nw = match node_world(ctx, flags_default()).await {
+            Ok(x) => x,
+            Err(e) => { res.violations.push(("could not establish the connection under a conforming peer".into(), json!({"error": e}))); return res; }
+        };
+        nw.w.gates.set_active(&["proc.handle"]);
+        let log: Log = Arc::new(Mutex::new(vec![]));
+        let slow = nw.node.spawn(SlowRec { name: "slow".into(), log: log.clone(), held: false }).await.unwrap();
+        let idle = nw.node.spawn(Rec { name: "idle".into(), log: log.clone() }).await.unwrap();
+        nw.node.register(Atom::new("idle"), idle.clone()).await.unwrap();
+        let ds = den_pid(&slow);
+        let probe = { let l = log.clone(); move || l.lock().unwrap().len() as u64 };
+        let mut expect_slow: Vec<String> = vec![];
+        for i in 0..n {
+            let m = RefVal::Tuple(vec![RefVal::atom("n"), RefVal::int(i as i64)]);
+            nw.peer.send(&send_to(&ds, m.clone()));
+            expect_slow.push(format!("msg:{}", m));
+            if i % 64 == 0 { nw.w.settle(&mut nw.peer, &probe).await; }
+        }
+        nw.peer.send(&pt(RefVal::Tuple(vec![RefVal::int(3), peer_pid(5), ds.clone(), RefVal::atom("boom")]), None));
+        expect_slow.push(format!("exit:{}:{}", peer_pid(5), RefVal::atom("boom")));
+        nw.peer.send(&reg_send_to("idle", RefVal::atom("hello")));
+        nw.w.settle(&mut nw.peer, &probe).await;
+        res.steps = n as u64 + 2;
+        // now let the slow process run
+        nw.w.gates.release_all_and_deactivate();
+        nw.w.settle(&mut nw.peer, &probe).await;
+        let got = log.lock().unwrap().clone();
+        let got_slow: Vec<String> = got.iter().filter(|x| x.0 == "slow").map(|x| x.1.clone()).collect();
+        let got_idle: Vec<String> = got.iter().filter(|x| x.0 == "idle").map(|x| x.1.clone()).collect();
+        if got_slow != expect_slow {
+            let first_diff = got_slow.iter().zip(&expect_slow).position(|(a, b)| a != b);
+            res.violations.push(("messages for a live process that is behind were lost, duplicated or reordered".into(), json!({"sent": expect_slow.len(), "handled": got_slow.len(), "first_difference_at": first_diff, "last_handled": got_slow.last()})));
+        }
+        if got_idle != vec![format!("msg:{}", RefVal::atom("hello"))] {
+            res.violations.push(("a message for another process was affected by a busy one".into(), json!({"idle_got": got_idle})));
+        }
+        if !nw.node.connections().contains_key(PEER_NAME) { res.violations.push(("connection deregistered although the stream is intact".into(), json!({}))); }
+        res.outcome = format!("backlog {} handled {}", n, got_slow.len());
+        res
+    })
+}
+
 pub fn run(rep: &Report) -> Value {
     let max_len = if rep.thorough() { 4 } else { 3 };
     let n = EVENTS.len();
@@ -166,16 +212,19 @@ pub fn run(rep: &Report) -> Value {
         }
         r
     });
+    let backlogs: Vec<usize> = vec![999, 1000, 1001, 1002, 1500];
+    let st_b: Stats = for_all(rep, "recipient more than a mailbox behind", &backlogs, |n, ctx| backlog_exec(*n, ctx));
     json!({
-        "states": st.executions,
-        "transitions": st.transitions,
-        "traces_validated_against_impl": st.executions,
+        "states": st.executions + st_b.executions,
+        "transitions": st.transitions + st_b.transitions,
+        "traces_validated_against_impl": st.executions + st_b.executions,
+        "backlog_scenarios": backlogs,
         "samples": [ {"events": cases[cases.len() / 2].iter().map(|&e| EVENTS[e]).collect::<Vec<_>>()}, {"events": cases[cases.len() - 7].iter().map(|&e| EVENTS[e]).collect::<Vec<_>>()}, {"alphabet": EVENTS} ],
         "exhaustive": true,
         "max_sequence_length": max_len,
         "distinct_outcomes": st.distinct_outcomes,
         "outcomes": st.outcomes,
         "unstable_failures_not_reported": st.unstable,
-        "rule": format!("every sequence of <= {} events over a 21-event alphabet (sends to live/dead/never-existing pids, registered/unknown/late-registered names, exit, monitor exit, rpc reply, unknown control kind, control tuple the parser rejects, tick, undecodable body, wrong marker, over-long length, premature close, close, 5/9/15 s of silence, a local registration) against a real started Node with three instrumented processes and one outstanding remote call, followed by a final valid message; states = complete executions", max_len),
+        "rule": format!("every sequence of <= {} events over a 21-event alphabet (sends to live/dead/never-existing pids, registered/unknown/late-registered names, exit, monitor exit, rpc reply, unknown control kind, control tuple the parser rejects, tick, undecodable body, wrong marker, over-long length, premature close, close, 5/9/15 s of silence, a local registration) against a real started Node with three instrumented processes and one outstanding remote call, followed by a final valid message; plus five backlog executions in which a process held at a gate is sent 999..1500 messages, an exit signal and traffic for another process (mailbox capacity is 1000); states = complete executions", max_len),
     })
 }
